@@ -36,6 +36,20 @@ def toy_state():
     return st, {"ind_vars": ["u"], "n_ind": 3, "ind_reads": ["b", "d", "nll_regul_u_ind", "nll_regul_ind_sum_ind"]}
 
 
+def chain_state(depth):
+    """a long thin graph: x0 -> x1 -> ... -> x_depth (x_{k+1} = x_k + 1), the shape on which an incomplete transitive closure shows"""
+    from leaspy.variables.dag import VariablesDAG
+    from leaspy.variables.specs import Hyperparameter, LinkedVariable, NamedVariables, PopulationLatentVariable
+    from leaspy.variables.distributions import Normal
+    from leaspy.variables.state import State, StateForkType
+    d = {"mean": Hyperparameter(0.0), "scale": Hyperparameter(1.0), "x0": PopulationLatentVariable(Normal("mean", "scale"))}
+    for k in range(depth):
+        d[f"x{k + 1}"] = eval(f"LinkedVariable(lambda *, x{k}: x{k} + 1.0)", {"LinkedVariable": LinkedVariable})
+    st = State(VariablesDAG.from_dict(NamedVariables(d)), auto_fork_type=StateForkType.REF)
+    st["x0"] = torch.tensor(0.5)
+    return st, {"ind_vars": [], "n_ind": 0, "ind_reads": []}
+
+
 def run_histories(state, info, rng, n_hist, length, log):
     from leaspy.exceptions import LeaspyInputError
     from leaspy.variables.state import StateForkType
@@ -71,6 +85,9 @@ def run_histories(state, info, rng, n_hist, length, log):
                         except LeaspyInputError:
                             pass
                         continue
+                    except Exception as e:       # anything else escaping a read is the library's failure, not the monitor's
+                        violations.append(dict(key=f"read of {n} crashed with {type(e).__name__}: {str(e)[:80]}", history=hist[:]))
+                        return violations, evals, distinct, samples
                     evals += 1
                     distinct.add((n, len(hist)))
                     want = from_scratch(st, n)
@@ -143,6 +160,15 @@ def standin_state_histories(tier, seed):
     distinct |= {("toy",) + x for x in d}
     samples += s
     graphs += 1
+    for depth in range(2, 22 if tier == "quick" else 70):
+        st, info = chain_state(depth)
+        v, e, d, s = run_histories(st, info, rng, 4, 12, None)
+        violations += v
+        evals += e
+        distinct |= {("chain", depth) + x for x in d}
+        graphs += 1
+        if violations:
+            break
     for kind, kw, n_ft in MODEL_KINDS:
         m, st, ds, df = make_model_state(kind, kw, n_ft, seed=seed)
         ind_vars = list(st.dag.individual_variable_names)
@@ -160,7 +186,7 @@ def standin_state_histories(tier, seed):
                 rule="each evaluation = one read of a variable of the real State compared bit-for-bit with its definition "
                      "evaluated from scratch; distinct = (graph, variable, position in history)",
                 samples=samples[:3], violations=violations[:60],
-                bound=dict(space="seeded random histories over real model graphs + one toy graph", graphs=graphs,
+                bound=dict(space="seeded random histories over real model graphs + one toy graph + chains x0 -> ... -> x_d for every depth d up to 21 (quick) / 69 (thorough)", graphs=graphs,
                            histories_per_graph=n_hist, history_length=length, exhaustive=False, seed=seed))
 
 
